@@ -46,8 +46,9 @@ def wsgi_answer(rr, p, v, pat_of):
     return a
 
 
-def run_history(rng, ops, probes, verbs, nprobe, e2e=0, last_nprobe=None, last_e2e=None, nverbs=2, wsgi_last=False):
-    """Apply ops to a fresh real router; after each op record state and sampled probe answers."""
+def run_history(rng, ops, probes, verbs, nprobe, e2e=0, last_nprobe=None, last_e2e=None, nverbs=2, wsgi_last=False, beside=None):
+    """Apply ops to a fresh real router; after each op record state and sampled probe answers.
+    beside: another router of the same process (rules of its own); every probe is put to it first."""
     rr = rl.RealRouter(rng)
     out = []
     e2e_bad = []
@@ -64,6 +65,8 @@ def run_history(rng, ops, probes, verbs, nprobe, e2e=0, last_nprobe=None, last_e
         sample = probes if len(probes) <= nprobe else rng.sample(probes, nprobe)
         for p in sample:
             for v in (verbs if len(verbs) <= nverbs else rng.sample(verbs, nverbs)):
+                if beside is not None:
+                    beside.resolve(p, v.upper())
                 a = rr.resolve(p, v.upper())
                 if a.get('k') == 'unobservable':
                     continue
@@ -527,8 +530,15 @@ def run(chk, pid):
             # every instance of the rule under the re-installed hook
             probes = [q for q in rl.instances([r], [], rng) if q[:len(hp)] == hp][:40] + probes[:4]
         dverbs = ['GET', 'HEAD', 'POST', 'PUT', 'PURGE', 'LOCK', 'UNLOCK', 'LINK']
+        beside = None
+        if it % 4 == 1:
+            # another router lives in the process (another application, a plug-in) with rules of its own over the same paths;
+            # it is asked every probe just before the router under test is
+            beside = rl.RealRouter(rng)
+            for x in rng.sample(uni, min(4, len(uni))):
+                beside.apply(blank_op(op='add', r=norm_r(dict(x, id=x['id'] + 'o')), ow=True, flavour=0))
         t, bad = run_history(rng, ops2, probes, dverbs, 0 if reinstall else len(probes), e2e=0, nverbs=len(dverbs), wsgi_last=True,
-                             last_nprobe=len(probes))
+                             last_nprobe=len(probes), beside=beside)
         traces.append(t)
         e2e_bad += bad
         chk.count(1, ('dense', json.dumps([strip_op(o) for o in t])[:600]))
